@@ -261,6 +261,34 @@ Proof.
   destruct (init_set a); [discriminate|]. discriminate.
 Qed.
 
+(* both source facts arbitrary *)
+Theorem word_paths_any_tree : forall (strict guard : bool) (a : wargs) (s : str) (loc : nat),
+  w_valid a = true -> w_kw a = false ->
+  (strict = false \/ max_specified a = false) -> (guard = true \/ init_set a <> []) ->
+  word_loop strict a s loc = word_spec a s loc /\
+  (forall r, word_regex guard a = Some r -> word_regex_path r s loc = word_spec a s loc).
+Proof.
+  intros strict guard a s loc V KW ST GD. split.
+  - apply word_loop_spec; assumption.
+  - intros r H. eapply word_regex_spec; eauto.
+    destruct GD as [->|NE]; [eapply word_regex_guard_nonempty; eauto|exact NE].
+Qed.
+
+(* the repaired tree: no strict clause, guarded regex *)
+Theorem word_paths_repaired : forall (a : wargs) (s : str) (loc : nat),
+  w_valid a = true -> w_kw a = false ->
+  word_loop gen_word_strict a s loc = word_spec a s loc /\
+  (forall r, word_regex gen_word_guard a = Some r -> word_regex_path r s loc = word_spec a s loc) /\
+  word_parse gen_word_strict gen_word_guard a s loc = word_spec a s loc.
+Proof.
+  intros a s loc V KW.
+  destruct (word_paths_any_tree gen_word_strict gen_word_guard a s loc V KW) as (H1 & H2).
+  - left. reflexivity.
+  - left. reflexivity.
+  - split; [exact H1|split; [exact H2|]].
+    unfold word_parse. destruct (word_regex gen_word_guard a) eqn:E; [apply H2; reflexivity|exact H1].
+Qed.
+
 (* ------------------------------------------------------------------ Literal dispatch *)
 Lemma starts_at_nil : forall s loc, starts_at s loc [] = true.
 Proof. reflexivity. Qed.
